@@ -31,6 +31,8 @@
 (*   ParsesBack      the parser maps the printed form back to the set      *)
 (* Member rows   [kind |-> "member", fam, name, v, bits]: every constant   *)
 (*   of a flag family.                                                     *)
+(* List-valued flag fields and combinations of enumerated fields of one    *)
+(* entity: see the comments at ComboRoundTrip below and EnumCombo.tla.     *)
 (*                                                                         *)
 (* Generator (direction G).  State machine fam/val/stage: choose a flag    *)
 (* family, then a set of its members; val is the union.  Families in       *)
@@ -74,6 +76,20 @@ ParsesBack(r)     == r.pok /\ SeqToSet(r.pback) = SeqToSet(r.bits)
 \* back whether the printer wrote the field or omitted it as a default, and both places must read alike.
 FieldRoundTrip(r)   == r.ok /\ r.back = r.v
 PlaceAgnostic(r, s) == r.ok = s.ok /\ r.back = s.back /\ r.omitted = s.omitted /\ r.printed = s.printed
+
+\* LIST-valued flag fields (FastMathFlags, OverflowFlags of instructions and constant expressions) are
+\* flag-set rows too: fam is the keyword family, node the carrier (InstFAdd, ExprShl, ...), bits the SET
+\* of member values placed in the list, printed the flag tokens of the printed instruction, pback the set
+\* of members of the list the parser built from the printed module.  The members are the defined values
+\* of the family (member rows with bits = {value}); the same laws apply (ExactSet: `fast` printed for
+\* seven individual flags is a member that is not in the set and seven members dropped).  The generator
+\* below enumerates EVERY subset of these families (they are in ExhaustiveFams).
+
+\* combination rows [kind |-> "combo", node (the entity: global, declare, define, alias, ifunc), fam (the
+\* families joined by "*"), bits (the SEQUENCE of values, one per family, set together on one entity),
+\* printed, pok, pback]: the values must all come back TOGETHER - a keyword may not be dropped because a
+\* value of another field implies it.  The combinations are generated by EnumCombo.tla.
+ComboRoundTrip(r)   == r.pok /\ r.pback = r.bits
 
 ----------------------------------------------------------------------------
 (* Generator *)
